@@ -225,6 +225,13 @@ func (h *HttpServer) handleStreamInit(w http.ResponseWriter, r *http.Request) {
 	}
 	outputSchema := streamResult.OutputSchema
 	state := streamResult.State
+	// A dynamic method has no registered input schema; what it declares on the
+	// StreamResult must travel with the call so /exchange can cast against it
+	// exactly as the pipe transports do.
+	var dynamicInputSchema *arrow.Schema
+	if info.InputSchema == nil {
+		dynamicInputSchema = streamResult.InputSchema
+	}
 
 	// Determine mode: for MethodDynamic, check the concrete state type
 	var isProducer bool
@@ -292,7 +299,7 @@ func (h *HttpServer) handleStreamInit(w http.ResponseWriter, r *http.Request) {
 		if err == nil && !finished {
 			// Batch limit reached — append continuation token
 			token, tokenErr := h.packCursorTokenFor(callID, method, state, auth)
-			callToken, callErr := h.packCallToken(callID, outputSchema, auth, streamID)
+			callToken, callErr := h.packCallTokenWithInput(callID, outputSchema, dynamicInputSchema, auth, streamID)
 			if tokenErr != nil || callErr != nil {
 				// The stream cannot be continued. Say so in the body: without an
 				// EXCEPTION batch the client reads a token-less 200 as a clean
@@ -321,7 +328,7 @@ func (h *HttpServer) handleStreamInit(w http.ResponseWriter, r *http.Request) {
 			h.writeHttpError(w, http.StatusInternalServerError, err, nil)
 			return
 		}
-		callToken, err := h.packCallToken(callID, outputSchema, auth, streamID)
+		callToken, err := h.packCallTokenWithInput(callID, outputSchema, dynamicInputSchema, auth, streamID)
 		if err != nil {
 			handlerErr = err
 			h.writeHttpError(w, http.StatusInternalServerError, err, nil)
@@ -604,6 +611,27 @@ func (h *HttpServer) handleStreamExchange(w http.ResponseWriter, r *http.Request
 	if cancelled {
 		handlerErr = h.handleStreamCancel(ctx, w, outputSchema, tokenData.State, info, auth, transportMeta, cookies, stickySinkForCtx)
 		return
+	}
+
+	// Dynamic methods: cast against the input schema the method declared at
+	// init (carried in the call token), mirroring serveStream.
+	if !isProducer && info.InputSchema == nil && len(call.InputSchemaIPC) > 0 {
+		dynIn, schemaErr := deserializeSchema(call.InputSchemaIPC)
+		if schemaErr != nil {
+			handlerErr = &RpcError{Type: "RuntimeError", Message: fmt.Sprintf("failed to recover input schema: %v", schemaErr)}
+			h.writeHttpError(w, http.StatusBadRequest, handlerErr, nil)
+			return
+		}
+		if !inputBatch.Schema().Equal(dynIn) {
+			castBatch, castErr := castRecordBatch(inputBatch, dynIn)
+			if castErr != nil {
+				handlerErr = castErr
+				h.writeHttpError(w, http.StatusBadRequest, castErr, nil)
+				return
+			}
+			defer castBatch.Release()
+			inputBatch = castBatch
+		}
 	}
 
 	if isProducer {
